@@ -36,6 +36,14 @@ class Deadlock(Exception):
 EPOCH_US = 1_700_000_000_000_000
 
 
+import itertools
+
+# Descriptor numbers are unique per interpreter and far above any real
+# descriptor: a stale Whoosh object finalised after its run (FcntlLock.__del__)
+# must never close a real descriptor or one of a later simulation.
+_FD_COUNTER = itertools.count(1000000)
+
+
 class Proc(object):
     """A simulated OS process: pid, descriptor table, open file objects."""
 
@@ -44,7 +52,6 @@ class Proc(object):
         self.name = name
         self.alive = True
         self.fds = {}
-        self.next_fd = 3
         self.files = []  # open SimFile objects (for tearing on kill)
         self.cwd = "/"
 
